@@ -37,6 +37,8 @@ type C16Case struct {
 	// CFListSpelling selects how an absent CFList is written in the JSON body: "" = member
 	// omitted, "null" = "CFList":null, "empty" = "CFList":"" (all three mean: no CFList)
 	CFListSpelling string
+	// SenderIDUpper writes the NetID in upper-case hex digits (the answer mirrors it verbatim)
+	SenderIDUpper bool
 	JoinNonce      int
 	NSKEK          []byte // nil = no KEK for the network server
 	ASKEK          []byte
@@ -101,6 +103,9 @@ func (k C16Case) Body() []byte {
 		m["CFList"] = nil
 	} else if k.CFListSpelling == "empty" {
 		m["CFList"] = ""
+	}
+	if k.SenderIDUpper {
+		m["SenderID"] = strings.ToUpper(hex.EncodeToString(k.NetID[:]))
 	}
 	b, _ := json.Marshal(m)
 	return b
@@ -203,7 +208,11 @@ func C16Judge(k C16Case, status int, body []byte) (problems [][2]string, outcome
 		wantType, kind = "RejoinAns", "rejoin"
 	}
 	// every answer mirrors sender, receiver and transaction id
-	if ans.SenderID != hex.EncodeToString(k.JoinEUI[:]) || ans.ReceiverID != hex.EncodeToString(k.NetID[:]) || ans.TransactionID != k.TxID || ans.MessageType != wantType {
+	wantReceiver := hex.EncodeToString(k.NetID[:])
+	if k.SenderIDUpper {
+		wantReceiver = strings.ToUpper(wantReceiver)
+	}
+	if ans.SenderID != hex.EncodeToString(k.JoinEUI[:]) || ans.ReceiverID != wantReceiver || ans.TransactionID != k.TxID || ans.MessageType != wantType {
 		bad("answer/"+kind+"/not-mirrored", "answer sender %q receiver %q transaction %d type %q", ans.SenderID, ans.ReceiverID, ans.TransactionID, ans.MessageType)
 	}
 	rc := ans.Result.ResultCode
@@ -422,6 +431,22 @@ func runC16(r *engine.Run) {
 		}
 		judge(c, k, C16Handler([]C16Case{k}, nil))
 		c.Outcome("cflist-contents")
+	})
+	// ---- B3: the answer mirrors the sender's identifier as it was written (upper-case hex digits)
+	r.PartDims("B3/sender-id-spelling", []string{"kind{join,rejoin0,rejoin1,rejoin2}", "NetID:2", "outcome{success,unknown device,bad MIC}"}, 4*2*3, func(c *engine.Case) {
+		k := baseCase()
+		k.Kind = int(c.Index % 4)
+		k.NetID = [][3]byte{{0xC0, 0xFF, 0xEE}, {0x0A, 0x0B, 0x0C}}[(c.Index/4)%2]
+		k.SenderIDUpper = true
+		switch c.Index / 8 {
+		case 1:
+			k.Known = false
+			k.DevEUI[7] ^= 0x55
+		case 2:
+			k.MICFlip = 3
+		}
+		judge(c, k, C16Handler([]C16Case{k}, nil))
+		c.Outcome("sender-id-spelling")
 	})
 	// ---- C: KEK configurations
 	spC := (&engine.Space{}).Dim("ns kek{none,16,32}", 3).Dim("as kek{none,16}", 2).Dim("optneg", 2).Dim("kind", 4)
